@@ -42,6 +42,15 @@ class AItem:
             return SymName(("item", self.kind, self.ident))
         raise Unsupported(f"attribute {name} of a generic graph item")
 
+    def pyvc_isinstance(self, interp, cls):
+        """the items handed to / met in the graph are well typed: nodes are Node objects, links Link objects"""
+        name = getattr(cls, "name", None)
+        if self.kind in ("node", "given-up", "given-down"):
+            return name in ("Node", "ElementBase")
+        if self.kind in ("given-link", "edge-attr:link"):
+            return name in ("Link", "ElementWithVars", "ElementBase")
+        raise Unsupported(f"isinstance of a generic graph item of kind {self.kind}")
+
     def __repr__(self):
         return f"<{self.kind}#{self.ident}>"
 
